@@ -3,6 +3,7 @@ package checks
 import (
 	"fmt"
 	"go/token"
+	"go/types"
 	"sort"
 	"strings"
 
@@ -110,7 +111,10 @@ func checkC13(c *Ctx) *core.Result {
 	specFlags := map[int64]string{
 		a.Const("xss.flagData"): "xss.st.data", a.Const("xss.flagNoQuote"): "xss.st.beforeAttrName", a.Const("xss.flagSingle"): "xss.st.valueSingle",
 		a.Const("xss.flagDouble"): "xss.st.valueDouble", a.Const("xss.flagBack"): "xss.st.valueBack"}
-	paths, err := ssax.EnumeratePaths(root, 500)
+	inlineX1 := func(callee *ssa.Function, depth int) bool {
+		return p.InModule(callee) && callee != ctx && depth <= 2 && len(callee.Blocks) <= 40
+	}
+	paths, err := ssax.EnumerateTraces(root, inlineX1, 500)
 	loopForm := false
 	if err != nil {
 		// not a straight-line disjunction: accept the loop over a constant list of contexts
@@ -121,83 +125,64 @@ func checkC13(c *Ctx) *core.Result {
 			r.Fail("X1", core.QualName(root), "path enumeration", p.Pos(root.Pos()), err.Error())
 		}
 	}
-	for pi, path := range paths {
+	for pi := range paths {
+		path := &paths[pi]
 		type ev struct {
 			flag int64
 			out  int // 1 true, 0 false, -1 unknown
 		}
 		var evs []ev
-		var ret *ssa.Return
 		bad := ""
-		for i, b := range path.Blocks {
-			for _, ins := range b.Instrs {
-				switch x := ins.(type) {
-				case *ssa.Call:
-					if x.Common().StaticCallee() == ctx {
-						fl := int64(-1)
-						inputOK := false
-						for _, arg := range x.Common().Args {
-							if k, ok := ssax.ConstInt(arg); ok {
-								fl = k
-							}
-							if prm, ok := arg.(*ssa.Parameter); ok && prm.Parent() == root {
-								inputOK = true
-							}
-						}
-						if !inputOK {
-							bad = "a context is analysed on something other than the API input"
-						}
-						evs = append(evs, ev{fl, -1})
-					} else if f := x.Common().StaticCallee(); f != nil && p.InModule(f) {
-						bad = "unexpected call " + f.Name()
+		for _, it := range path.Items {
+			switch {
+			case it.Branch:
+				if call, ok := it.Cond.(*ssa.Call); ok && call.Common().StaticCallee() == ctx && len(evs) > 0 {
+					if it.True {
+						evs[len(evs)-1].out = 1
+					} else {
+						evs[len(evs)-1].out = 0
 					}
-				case *ssa.If:
-					matched := false
-					for _, f := range ssax.ExpandCond(x.Cond, path.Edge(i) == 0) {
-						if call, ok := f.Cond.(*ssa.Call); ok && call.Common().StaticCallee() == ctx && len(evs) > 0 {
-							matched = true
-							if f.True {
-								evs[len(evs)-1].out = 1
-							} else {
-								evs[len(evs)-1].out = 0
-							}
-						}
+				} else {
+					bad = "branch on something other than a context verdict: " + it.Cond.String()
+				}
+			case it.Call != nil && it.Call.Common().StaticCallee() == ctx:
+				fl := int64(-1)
+				inputOK := false
+				for _, arg := range it.Call.Common().Args {
+					if k, ok := path.ConstInt(arg, it.Fr); ok {
+						fl = k
 					}
-					if !matched {
-						bad = "branch on something other than a context verdict: " + x.Cond.String()
+					rv, rfr := path.Resolve(arg, it.Fr)
+					if prm, ok := rv.(*ssa.Parameter); ok && prm.Parent() == root && (rfr == nil || rfr.Parent == nil) {
+						inputOK = true
 					}
-				case *ssa.Return:
-					ret = x
+				}
+				if !inputOK {
+					bad = "a context is analysed on something other than the API input"
+				}
+				evs = append(evs, ev{fl, -1})
+			case it.Call != nil:
+				if f := it.Call.Common().StaticCallee(); f != nil && p.InModule(f) {
+					bad = "unexpected call " + f.Name()
 				}
 			}
 		}
 		expr := fmt.Sprintf("path #%d", pi)
-		if ret == nil || len(ret.Results) != 1 {
-			continue
-		}
 		var desc []string
 		for _, e := range evs {
 			desc = append(desc, fmt.Sprintf("ctx(%d)=%d", e.flag, e.out))
 		}
 		expr += " " + strings.Join(desc, " ")
-		rv, isConst := ssax.ConstBool(ret.Results[0])
 		switch {
 		case bad != "":
-			r.Fail("X1", core.QualName(root), "disjunction path", p.Pos(ret.Pos()), expr+": "+bad)
-		case !isConst:
-			// `return a || b …` form: the returned value must be the last context verdict
-			if call, ok := ret.Results[0].(*ssa.Call); ok && call.Common().StaticCallee() == ctx {
-				r.OK("X1", core.QualName(root), expr, p.Pos(ret.Pos()), "returns the last context verdict")
-			} else if _, isPhi := ret.Results[0].(*ssa.Phi); isPhi {
-				r.Fail("X1", core.QualName(root), "disjunction path", p.Pos(ret.Pos()), expr+": verdict is a merged value this rule cannot attribute (undecided)")
-			} else {
-				r.Fail("X1", core.QualName(root), "disjunction path", p.Pos(ret.Pos()), expr+": returns a value that is not a context verdict")
-			}
-		case rv:
+			r.Fail("X1", core.QualName(root), "disjunction path", p.Pos(path.RetPos), expr+": "+bad)
+		case !path.RetKnown:
+			r.Fail("X1", core.QualName(root), "disjunction path", p.Pos(path.RetPos), expr+": returns a value that is not a context verdict")
+		case path.Ret:
 			if len(evs) == 0 || evs[len(evs)-1].out != 1 {
-				r.Fail("X1", core.QualName(root), "return true without a positive context", p.Pos(ret.Pos()), expr+": true is returned although the last analysed context did not report XSS")
+				r.Fail("X1", core.QualName(root), "return true without a positive context", p.Pos(path.RetPos), expr+": true is returned although the last analysed context did not report XSS")
 			} else {
-				r.OK("X1", core.QualName(root), expr+" → true", p.Pos(ret.Pos()), "some context returned true")
+				r.OK("X1", core.QualName(root), expr+" → true", p.Pos(path.RetPos), "some context returned true")
 			}
 		default:
 			seen := map[int64]bool{}
@@ -216,9 +201,9 @@ func checkC13(c *Ctx) *core.Result {
 			}
 			if !okAll || len(missing) > 0 {
 				sort.Slice(missing, func(i, j int) bool { return missing[i] < missing[j] })
-				r.Fail("X1", core.QualName(root), "return false before all contexts were tried", p.Pos(ret.Pos()), fmt.Sprintf("%s: false is returned without a negative verdict from contexts %v", expr, missing))
+				r.Fail("X1", core.QualName(root), "return false before all contexts were tried", p.Pos(path.RetPos), fmt.Sprintf("%s: false is returned without a negative verdict from contexts %v", expr, missing))
 			} else {
-				r.OK("X1", core.QualName(root), expr+" → false", p.Pos(ret.Pos()), "all five contexts negative")
+				r.OK("X1", core.QualName(root), expr+" → false", p.Pos(path.RetPos), "all five contexts negative")
 			}
 		}
 	}
@@ -421,47 +406,36 @@ func checkC15(c *Ctx) *core.Result {
 
 	// ---- Y1: every `return true` of the classifier sits under an allowed token type
 	allowed := map[int64]string{tDoc: "DocType", tOpen: "TagNameOpen", tVal: "AttrValue", tCom: "TagComment"}
-	nTrue := 0
-	for _, ret := range ssax.Returns(ctx) {
-		v := ret.Results[0]
-		if b, ok := ssax.ConstBool(v); ok && !b {
-			continue
+	// the ways the classifier answers true; boolean helpers it delegates to are looked into
+	expandHelper := func(h *ssa.Function) bool {
+		if !p.InModule(h) || h == a.FnOpt("xss.isBlackTag") || h == a.FnOpt("xss.isBlackURL") || h == a.FnOpt("xss.urlMatch") || h == a.FnOpt("xss.next") || len(h.Blocks) == 0 {
+			return false
 		}
-		nTrue++
-		expr := "return " + v.String()
-		// one judgement per way of reaching the return block (a shared `return true`
-		// behind `case A, B:` or `a || b` has one predecessor per disjunct)
-		factSets := [][]ssax.Fact{ssax.Facts(ret.Block())}
-		if len(ret.Block().Preds) > 1 {
-			factSets = nil
-			for _, pb := range ret.Block().Preds {
-				fs := ssax.Facts(pb)
-				if iff, ok := pb.Instrs[len(pb.Instrs)-1].(*ssa.If); ok && pb.Succs[0] != pb.Succs[1] {
-					fs = append(fs, ssax.ExpandCond(iff.Cond, pb.Succs[0] == ret.Block())...)
-				}
-				factSets = append(factSets, fs)
-			}
+		res := h.Signature.Results()
+		if res.Len() != 1 {
+			return false
 		}
-		for fsi, facts := range factSets {
-			if len(factSets) > 1 {
-				expr = fmt.Sprintf("return %s (way %d of %d)", v.String(), fsi+1, len(factSets))
-			}
+		bt, ok := res.At(0).Type().Underlying().(*types.Basic)
+		return ok && bt.Kind() == types.Bool
+	}
+	ways := ssax.TrueWays(ctx, expandHelper, 0)
+	nTrue := len(ways)
+	for wi, way := range ways {
+		facts := way.Facts
+		expr := fmt.Sprintf("positive verdict, way %d of %d", wi+1, len(ways))
+		{
 			tt, ok := tokenTypeFact(facts)
-			if _, isConst := ssax.ConstBool(v); !isConst {
-				r.Fail("Y1", core.QualName(ctx), expr, p.Pos(ret.Pos()), "non-constant verdict returned from the classifier (undecided)")
-				continue
-			}
 			if !ok {
-				r.Fail("Y1", core.QualName(ctx), expr, p.Pos(ret.Pos()), "a positive verdict that is not conditional on the token type")
+				r.Fail("Y1", core.QualName(ctx), expr, p.Pos(way.Pos), "a positive verdict that is not conditional on the token type")
 				continue
 			}
 			name, okT := allowed[tt]
 			if !okT {
-				r.Fail("Y1", core.QualName(ctx), expr+fmt.Sprintf(" under tokenType==%d", tt), p.Pos(ret.Pos()), "a positive verdict on a token type that needs neither '<' nor '=' (only DocType, TagNameOpen, TagComment and AttrValue-with-classified-attribute may fire)")
+				r.Fail("Y1", core.QualName(ctx), expr+fmt.Sprintf(" under tokenType==%d", tt), p.Pos(way.Pos), "a positive verdict on a token type that needs neither '<' nor '=' (only DocType, TagNameOpen, TagComment and AttrValue-with-classified-attribute may fire)")
 				continue
 			}
 			if tt != tVal {
-				r.OK("Y1", core.QualName(ctx), expr+" under "+name, p.Pos(ret.Pos()), "")
+				r.OK("Y1", core.QualName(ctx), expr+" under "+name, p.Pos(way.Pos), "")
 				continue
 			}
 			// AttrValue: needs attr ≠ None, with attr a proper attribute-kind variable
@@ -476,12 +450,12 @@ func checkC15(c *Ctx) *core.Result {
 				if !okk {
 					continue
 				}
-				if a.loadsField(bo.X, "xss.state.tokenType") {
+				if a.loadsField(f.Arg(bo.X), "xss.state.tokenType") {
 					continue
 				}
 				var consts []*ssa.Const
 				var calls []*ssa.Call
-				if !attrLeaves(bo.X, map[ssa.Value]bool{}, &consts, &calls) {
+				if !attrLeaves(f.Arg(bo.X), map[ssa.Value]bool{}, &consts, &calls) {
 					why = "the tested value " + bo.X.Name() + " is not the attribute-kind variable (its definitions are not {None, attribute predicate})"
 					continue
 				}
@@ -511,9 +485,9 @@ func checkC15(c *Ctx) *core.Result {
 				}
 			}
 			if good {
-				r.OK("Y1", core.QualName(ctx), expr+" under AttrValue ∧ attr≠None", p.Pos(ret.Pos()), "attr ∈ {None initially, predicate(AttrName token)}")
+				r.OK("Y1", core.QualName(ctx), expr+" under AttrValue ∧ attr≠None", p.Pos(way.Pos), "attr ∈ {None initially, predicate(AttrName token)}")
 			} else {
-				r.Fail("Y1", core.QualName(ctx), expr+" under AttrValue", p.Pos(ret.Pos()), "positive verdict on an attribute value without a classified attribute name: "+why)
+				r.Fail("Y1", core.QualName(ctx), expr+" under AttrValue", p.Pos(way.Pos), "positive verdict on an attribute value without a classified attribute name: "+why)
 			}
 		}
 	}
